@@ -216,6 +216,11 @@ def tasks(tier):
   for rank, la in ((2, (0,)), (2, (0, 1)), (3, (0, 2)), (3, (1, 2))):
     ts.append(Task(f"tearfree shampoo _update locality[rank={rank},large_axes={la}]", mk_tf_update(rank, la)))
   ts.append(Task("distributed shampoo block locality", t_ds_blocks))
+  # the acceptance gate is per statistic (= per block and axis): a block's stored preconditioner is
+  # gate(its previous one, the root of ITS statistic, ITS error), whatever happens to the other blocks of the tensor
+  from contracts import c13
+  for n, d, gr in ((3, 1, (3,)), (4, 2, (4,)), (3, 2, (2, 1))):
+    ts.append(Task(f"distributed shampoo per-block acceptance[N={n},D={d},statistics per parameter {gr}]", c13.mk_p3(n, d, gr)))
   return ts
 
 
